@@ -264,7 +264,12 @@ func (scn Scn) mki() int {
 	return 0
 }
 
+// ctx is the MKI length of the outbound SRTP context the write function consults (-1 = none).
+// A ServerStream of a TLS server always has a context, whatever its readers negotiated.
 func (scn Scn) ctx() int {
+	if scn.Entity == "stream" && scn.TLS {
+		return 0
+	}
 	if !scn.SRTP {
 		return -1
 	}
@@ -448,7 +453,7 @@ func opList(op any) []WOp {
 func genOps(r *rand.Rand, scn Scn, radius int) []WOp {
 	max := scn.effMax()
 	rtpL, rtcpL := max, max
-	if scn.SRTP {
+	if scn.ctx() >= 0 { // generator's aim only; the verdict never uses these numbers
 		rtpL -= 10 + scn.mki()
 		rtcpL -= 14 + scn.mki()
 	}
@@ -531,13 +536,13 @@ func allScenarios(max int) []Scn {
 				if sec == "tls-plain" && proto == "udp" {
 					continue // the server refuses plain RTP over UDP under RTSPS
 				}
-				if sec == "tls-plain" && (ent == "stream" || ent == "session" || ent == "clientplay") {
-					continue // a real client always asks for SAVP when the server's SDP says so
-				}
 				out = append(out, scn)
 			}
 		}
 	}
+	// the stream's multicast writer (sockets bypass the ListenPacket hook: observed by a receiver
+	// that joined the group)
+	out = append(out, Scn{Entity: "mcast", Proto: "udp", Max: max}, Scn{Entity: "mcast", Proto: "udp", TLS: true, SRTP: true, Max: max})
 	return out
 }
 
